@@ -242,6 +242,63 @@ def path_conditions(fnode_body: List[ast.stmt]) -> List[Tuple[List[Tuple[ast.AST
     return results
 
 
+def _unroll_any(ctx, fi: FuncInfo, e: ast.AST) -> ast.AST:
+    """any(map(F, G(a))) / any(F(x) for x in G(a)) with G a module-level generator whose body is a few `yield <expr>` statements, some under
+    an `if`: written out as  F(e1) or (c2 and F(e2)) ...  - any() short-circuits in the order of the yields, like `or`."""
+    import copy
+    if not (isinstance(e, ast.Call) and isinstance(e.func, ast.Name) and e.func.id == 'any' and len(e.args) == 1 and not e.keywords):
+        return e
+    a = e.args[0]
+    if isinstance(a, ast.Call) and isinstance(a.func, ast.Name) and a.func.id == 'map' and len(a.args) == 2:
+        fn, src = a.args
+
+        def apply(x):
+            return ast.Call(func=copy.deepcopy(fn), args=[x], keywords=[])
+    elif isinstance(a, ast.GeneratorExp) and len(a.generators) == 1 and not a.generators[0].ifs and isinstance(a.generators[0].target, ast.Name):
+        src, tv, elt = a.generators[0].iter, a.generators[0].target.id, a.elt
+
+        def apply(x):
+            class R(ast.NodeTransformer):
+                def visit_Name(self, n):
+                    return copy.deepcopy(x) if n.id == tv else n
+            return R().visit(copy.deepcopy(elt))
+    else:
+        return e
+    if not (isinstance(src, ast.Call) and isinstance(src.func, ast.Name) and src.func.id in fi.module.functions and not src.keywords):
+        return e
+    g = fi.module.functions[src.func.id]
+    if len(g.positional) != len(src.args):
+        return e
+    env = dict(zip(g.positional, src.args))
+
+    def sub(x):
+        class R(ast.NodeTransformer):
+            def visit_Name(self, n):
+                return copy.deepcopy(env[n.id]) if n.id in env else n
+        return R().visit(copy.deepcopy(x))
+    terms = []
+
+    def walk(stmts, conds) -> bool:
+        for st in stmts:
+            if isinstance(st, ast.Expr) and isinstance(st.value, ast.Constant):
+                continue
+            if isinstance(st, ast.Expr) and isinstance(st.value, ast.Yield) and st.value.value is not None:
+                t = apply(sub(st.value.value))
+                terms.append(ast.BoolOp(op=ast.And(), values=conds + [t]) if conds else t)
+            elif isinstance(st, ast.If) and not st.orelse:
+                if not walk(st.body, conds + [sub(st.test)]):
+                    return False
+            else:
+                return False
+        return True
+    if not walk(g.node.body, []) or not terms:
+        return e
+    out = terms[0] if len(terms) == 1 else ast.BoolOp(op=ast.Or(), values=terms)
+    ast.copy_location(out, e)
+    ast.fix_missing_locations(out)
+    return out
+
+
 def bool_function_formula(ctx, fi: FuncInfo, subst: Optional[Dict[str, object]] = None,
                           canon: Optional[Callable[[str], str]] = None, calls: Optional[Dict[str, object]] = None):
     """Formula of a small boolean function with any mix of guard clauses / if-else / single expression:
@@ -254,7 +311,7 @@ def bool_function_formula(ctx, fi: FuncInfo, subst: Optional[Dict[str, object]] 
             continue
         if term.value is None:
             continue
-        val = expand(ctx, fi, term.value, term)
+        val = _unroll_any(ctx, fi, expand(ctx, fi, term.value, term))
         f = ab.formula(val)
         pc = [ab.formula(expand(ctx, fi, c, c)) if pol else bn.mk_not(ab.formula(expand(ctx, fi, c, c))) for c, pol in conds]
         terms.append(bn.mk_and(pc + [f]))
